@@ -1,4 +1,5 @@
 import DigModel.Proofs.Parse
+import DigModel.Proofs.InvokeShape
 /-
   C18 — Introspection reports exactly what was declared.
 
@@ -113,7 +114,109 @@ theorem C18_info_is_parse_decorate (ctx : Ctx) (fn : Fn) (st : St) (i s : Nat) (
               simp only [if_true, Option.some.injEq] at h
               exact ⟨params, w, results, rfl, rfl, h.symm⟩
 
+
+theorem C18_info_is_parse_provide (ctx : Ctx) (fn : Fn) (st : St) (i s : Nat) (o : ProvideOpts) (inf : InfoOut)
+    (h : (apiProvide ctx fn st i s o).2.info = some inf) :
+    (apiProvide ctx fn st i s o).2.v matches .ok ∧
+    ∃ as params w results, validateOpts ctx.env o = .ok as ∧
+      parseParams ctx.env st (if o.export_ then St.root else s) fn = (.ok params, w) ∧
+      newResultList ctx.env { name := o.name, group := o.group, as := as } fn = .ok results ∧
+      inf = { id := fn.id, ins := dotParams params, outs := dotSlots results } := by
+  unfold apiProvide at h ⊢
+  cases hnf : fn.nonfunc with
+  | some _ => simp [hnf] at h
+  | none =>
+    simp only [hnf] at h ⊢
+    cases hv : validateOpts ctx.env o with
+    | error e => simp [hv] at h
+    | ok as =>
+      simp only [hv] at h ⊢
+      cases hpp : parseParams ctx.env st (if o.export_ then St.root else s) fn with
+      | mk r w =>
+        rw [hpp] at h
+        cases r with
+        | error e => simp at h
+        | ok params =>
+          simp only at h ⊢
+          cases hr : newResultList ctx.env { name := o.name, group := o.group, as := as } fn with
+          | error e => simp [hr] at h
+          | ok results =>
+            simp only [hr] at h ⊢
+            cases hk : visitKeys ((St.newGraphNode { w with ctors := w.ctors ++ [({ fn := fn, params := params, results := results, s := (if o.export_ then St.root else s), origS := s, cb := if o.cb then some i else none } : CtorNode)] } (if o.export_ then St.root else s) (.ctor w.ctors.length)).scope (if o.export_ then St.root else s)) (slotResults results) [] with
+            | error e => simp [hk] at h
+            | ok keys =>
+              cases keys with
+              | nil => simp [hk] at h
+              | cons k0 ks =>
+                simp only [hk] at h ⊢
+                cases hvs : verifyScopes ctx.cfg (st.subscopes (if o.export_ then St.root else s)) ((St.newGraphNode { w with ctors := w.ctors ++ [({ fn := fn, params := params, results := results, s := (if o.export_ then St.root else s), origS := s, cb := if o.cb then some i else none } : CtorNode)] } (if o.export_ then St.root else s) (.ctor w.ctors.length)).modScope (if o.export_ then St.root else s) fun x => { x with providers := (k0 :: ks).foldl (fun m k => aset m k (agetL m k ++ [w.ctors.length])) x.providers }) with
+                | mk r5 w5 =>
+                  rw [hvs] at h
+                  cases r5 with
+                  | ok u =>
+                    simp only at h ⊢
+                    cases hi : o.info with
+                    | false => simp [hi] at h
+                    | true =>
+                      simp only [hi, if_true, Option.some.injEq] at h
+                      exact ⟨trivial, as, params, w, results, rfl, rfl, hr, h.symm⟩
+                  | error ec =>
+                    obtain ⟨sc, cr⟩ := ec
+                    cases cr <;> simp at h
+
+/-- a Provide that is not accepted leaves the Info struct alone -/
+theorem C18_rejected_untouched_provide (ctx : Ctx) (fn : Fn) (st : St) (i s : Nat) (o : ProvideOpts)
+    (h : ¬ ((apiProvide ctx fn st i s o).2.v matches .ok)) : (apiProvide ctx fn st i s o).2.info = none := by
+  cases hinfo : (apiProvide ctx fn st i s o).2.info with
+  | none => rfl
+  | some inf => exact absurd (C18_info_is_parse_provide ctx fn st i s o inf hinfo).1 h
+
+theorem C18_info_is_parse_invoke (ctx : Ctx) (fn : Fn) (st : St) (s : Nat) (info : Bool) (inf : InfoOut)
+    (h : (apiInvoke ctx fn st s info).2.info = some inf) :
+    ∃ params w, parseParams ctx.env st s fn = (.ok params, w) ∧ inf = { id := 0, ins := dotParams params, outs := [] } := by
+  rw [apiInvoke_eq] at h
+  unfold apiInvoke' at h
+  cases hnf : fn.nonfunc with
+  | some _ => simp [hnf] at h
+  | none =>
+    simp only [hnf] at h
+    cases hpp : parseParams ctx.env st s fn with
+    | mk r w =>
+      rw [hpp] at h
+      cases r with
+      | error e => simp at h
+      | ok params =>
+        simp only at h
+        cases hsc : shallowCheck s params w with
+        | mk r2 w2 =>
+          rw [hsc] at h
+          cases r2 with
+          | error f => simp at h
+          | ok u =>
+            simp only at h
+            cases hck : invokeCheck w2 s with
+            | error v => rw [hck] at h; simp at h
+            | ok w3 =>
+              rw [hck] at h
+              simp only at h
+              unfold invokeRun at h
+              cases hbl : EM.wrapErr (buildList ctx (engineFuel w3 params) params s) DErr.argsFailed w3 with
+              | mk r4 w4 =>
+                rw [hbl] at h
+                cases r4 with
+                | error f => simp at h
+                | ok args =>
+                  simp only at h
+                  cases hi : info with
+                  | false => simp [hi] at h
+                  | true =>
+                    simp only [hi, if_true, Option.some.injEq] at h
+                    exact ⟨params, w, rfl, h.symm⟩
+
 #print axioms C18_single_entry
+#print axioms C18_info_is_parse_provide
+#print axioms C18_rejected_untouched_provide
+#print axioms C18_info_is_parse_invoke
 #print axioms C18_group_entry
 #print axioms C18_object_flat
 #print axioms C18_as_expanded
